@@ -2117,3 +2117,21 @@ package gomatrixserverlib
 //@   assigns output[*]
 //@   loop 1: invariant 0 <= i && i <= len(input) && !lxStr(old(str(input)), i) && !lxEsc(old(str(input)), i) && str(input) == old(str(input)) && ref(output) != ref(input)
 //@   loop 2: invariant 0 <= i && i <= len(input) && lxStr(old(str(input)), i) && !lxEsc(old(str(input)), i) && str(input) == old(str(input)) && ref(output) != ref(input)
+
+// ---------------------------------------------------------------- C19: the key-fetching worker pool
+
+// the worker: drains the queue it is given and signals the wait group exactly once when the queue is exhausted
+//@ func (*DirectKeyFetcher).FetchKeys$1
+//@   property C19
+//@   nosafety
+//@   signals wait
+
+// the pool: every queued server fits into the job queue without waiting for a receiver (the queue is filled before
+// any worker exists), the queue is closed exactly once, and exactly as many signalling workers are started as the
+// wait group expects, so Wait() returns
+//@ func (*DirectKeyFetcher).FetchKeys
+//@   property C19
+//@   nosafety
+//@   requires d != nil
+//@   loop 3: invariant chanSent(pending) == count(3) && chanCap(pending) == len(byServer) && !chanClosed(pending) && pending != nil
+//@   loop 4: invariant 0 <= i && i <= numWorkers && wgSpawned(wait) == i && wgExpected(wait) == numWorkers
